@@ -177,7 +177,18 @@ var edits = []edit{
 		}
 	}},
 	{"add-child", func(g *gen.Graph) {
-		p := gen.Person{Ptr: fmt.Sprintf("N%d", len(g.People)+1), Given: "Newman", Surname: "Nightingale", Sex: "M", Birth: "1 Feb 1840", Marker: fmt.Sprintf("MKRN%d", len(g.People)+1)}
+		// a pointer (and marker) no other person of the document has, also after people were dropped
+		k := len(g.People) + 1
+		for used := true; used; {
+			used = false
+			for _, q := range g.People {
+				if q.Ptr == fmt.Sprintf("N%d", k) {
+					used = true
+					k++
+				}
+			}
+		}
+		p := gen.Person{Ptr: fmt.Sprintf("N%d", k), Given: "Newman", Surname: "Nightingale", Sex: "M", Birth: "1 Feb 1840", Marker: fmt.Sprintf("MKRN%d", k)}
 		g.People = append(g.People, p)
 		if len(g.Families) > 0 {
 			g.Families[0].Chil = append(g.Families[0].Chil, p.Ptr)
